@@ -112,7 +112,8 @@ impl GraphQLRequest {
 
 impl From<GraphQLQuery> for GraphQLRequest {
     fn from(query: GraphQLQuery) -> Self {
-        let mut request = async_graphql::Request::new(query.query);
+        // `GraphQLQuery` is the query string of a GET request
+        let mut request = async_graphql::Request::new(query.query).disable_mutation();
 
         if let Some(operation_name) = query.operation_name {
             request = request.operation_name(operation_name);
